@@ -114,8 +114,8 @@ static void blk_unary(void) {
 	BN_free(two); BN_free(half);
 }
 /* ---------------- points ---------------- */
-#define NPTS 12
-static EC_POINT *RPT[NPTS]; static SM2_Z256_POINT LPT[NPTS]; static const char *PNAME[NPTS] = { "O", "O(0,0,0)", "G", "-G", "2G", "P", "-P", "2P", "Q", "P(Z=7)", "G(Z=R-ish)", "3G" };
+#define NPTS 14
+static EC_POINT *RPT[NPTS]; static SM2_Z256_POINT LPT[NPTS]; static const char *PNAME[NPTS] = { "O", "O(0,0,0)", "G", "-G", "2G", "P", "-P", "2P", "Q", "P(Z=7)", "G(Z=R-ish)", "3G", "(0,sqrt(b))", "(0,-sqrt(b))" };
 static void build_points(void) {
 	const EC_GROUP *g = sr_group(); BN_CTX *c = sr_ctx(); BIGNUM *k = BN_new(), *one = BN_new(), *z = BN_new(); BN_one(one);
 	for (int i = 0; i < NPTS; i++) RPT[i] = EC_POINT_new(g);
@@ -123,6 +123,7 @@ static void build_points(void) {
 	EC_POINT_dbl(g, RPT[4], RPT[2], c); BN_hex2bn(&k, "3945208F7B2144B13F36E38AC6D39F95889393692860B51A42FB81EF4DF7C5B8"); EC_POINT_mul(g, RPT[5], k, NULL, NULL, c);
 	EC_POINT_copy(RPT[6], RPT[5]); EC_POINT_invert(g, RPT[6], c); EC_POINT_dbl(g, RPT[7], RPT[5], c); BN_hex2bn(&k, "59276E27D506861A16680F3AD9C02DCCEF3CC1FA3CDBE4CE6D54B80DEAC1BC21"); EC_POINT_mul(g, RPT[8], k, NULL, NULL, c);
 	EC_POINT_copy(RPT[9], RPT[5]); EC_POINT_copy(RPT[10], RPT[2]); BN_set_word(k, 3); EC_POINT_mul(g, RPT[11], k, NULL, NULL, c);
+	{ /* the two points with x = 0 (b is a square mod p): a zero coordinate in an otherwise ordinary operand */ BIGNUM *bb = BN_new(), *y0 = BN_new(), *x0 = BN_new(); BN_hex2bn(&bb, "28E9FA9E9D9F5E344D5A9E4BCF6509A7F39789F515AB8F92DDBCBD414D940E93"); if (!BN_mod_sqrt(y0, bb, sr_p(), c)) vh_harness_error("sqrt(b)"); BN_zero(x0); if (!EC_POINT_set_affine_coordinates(g, RPT[12], x0, y0, c)) vh_harness_error("x=0 point"); EC_POINT_copy(RPT[13], RPT[12]); EC_POINT_invert(g, RPT[13], c); BN_free(bb); BN_free(y0); BN_free(x0); }
 	for (int i = 0; i < NPTS; i++) { BN_one(z); if (i == 9) BN_set_word(z, 7); if (i == 10) { BN_copy(z, sr_p()); BN_sub_word(z, 5); } sr_point_to_jac_mont(RPT[i], z, LPT[i].X, LPT[i].Y, LPT[i].Z); }
 	memset(&LPT[1], 0, sizeof LPT[1]); /* the all-zero representation the library itself produces for [0]P */
 	BN_free(k); BN_free(one); BN_free(z);
@@ -149,7 +150,7 @@ static void blk_points(void) {
 		sm2_z256_point_sub(&r, &LPT[i], &LPT[j]); EC_POINT_copy(e, RPT[j]); EC_POINT_invert(g, e, c); EC_POINT_add(g, e, RPT[i], e, c); vh_eval(vh_mix(i * 100 + j + 2001)); if (!pt_eq(&r, e)) pt_fail("point_sub", i, j, &r);
 		{ r = LPT[i]; sm2_z256_point_add(&r, &r, &LPT[j]); EC_POINT_add(g, e, RPT[i], RPT[j], c); vh_eval(vh_mix(i * 100 + j + 2501)); if (!pt_eq(&r, e)) pt_fail("point_add:aliased", i, j, &r); }
 		/* affine second operand: normalised points only ((0,0) encodes infinity) */
-		if (j == 0 || (j >= 2 && j <= 8) || j == 11) { SM2_Z256_AFFINE_POINT af; memset(&af, 0, sizeof af); if (j) { memcpy(af.x, LPT[j].X, 32); memcpy(af.y, LPT[j].Y, 32); }
+		if (j == 0 || (j >= 2 && j <= 8) || j >= 11) { SM2_Z256_AFFINE_POINT af; memset(&af, 0, sizeof af); if (j) { memcpy(af.x, LPT[j].X, 32); memcpy(af.y, LPT[j].Y, 32); }
 			sm2_z256_point_add_affine(&r, &LPT[i], &af); EC_POINT_add(g, e, RPT[i], RPT[j], c); vh_eval(vh_mix(i * 100 + j + 3001)); if (!pt_eq(&r, e)) pt_fail("point_add_affine", i, j, &r);
 			sm2_z256_point_sub_affine(&r, &LPT[i], &af); EC_POINT_copy(e, RPT[j]); EC_POINT_invert(g, e, c); EC_POINT_add(g, e, RPT[i], e, c); vh_eval(vh_mix(i * 100 + j + 4001)); if (!pt_eq(&r, e)) pt_fail("point_sub_affine", i, j, &r);
 			if (i == 0 && j) { sm2_z256_point_copy_affine(&r, &af); vh_eval(vh_mix(j + 5001)); if (!pt_eq(&r, RPT[j])) pt_fail("point_copy_affine", j, -1, &r); } }
